@@ -24,6 +24,12 @@ namespace cnl::_impl {
         static constexpr int radix = Radix;
     };
 
+    // the greatest factor by which a loop of descale multiplies or divides the significand:
+    // OutRadix in the loop for negative input exponents; in the other loop, InRadix if that is greater
+    template<int OutRadix, int InExponent, int InRadix>
+    inline constexpr int descale_headroom_radix =
+            (InExponent < 0 || InRadix < OutRadix) ? OutRadix : InRadix;
+
     template<
             integer Significand = std::int64_t, int OutRadix = 10,
             bool Precise = false,
@@ -41,13 +47,13 @@ namespace cnl::_impl {
                 (input < Rep{0})
                 ? []([[maybe_unused]] Significand const& n) -> bool {
                       if constexpr (numbers::signedness_v<Significand>) {
-                          return n < -std::numeric_limits<Significand>::max() / OutRadix;
+                          return n < -std::numeric_limits<Significand>::max() / descale_headroom_radix<OutRadix, InExponent, InRadix>;
                       } else {
                           return unreachable<bool>("negative unsigned integer");
                       }
                   }
                 : [](Significand const& n) {
-                      return n > Significand{std::numeric_limits<Significand>::max() / OutRadix};
+                      return n > Significand{std::numeric_limits<Significand>::max() / descale_headroom_radix<OutRadix, InExponent, InRadix>};
                   }};
 
         if constexpr (InExponent < 0) {
